@@ -188,17 +188,14 @@ func (s *Server) Close() {
 // validTableID is the form the API documents for table ids.
 var validTableID = regexp.MustCompile(`^[_a-zA-Z0-9][-_.a-zA-Z0-9]{0,49}$`)
 
-// validTableParent is the form of an instance name, the parent of a table.
-var validTableParent = regexp.MustCompile(`^projects/[^/]+/instances/[^/]+$`)
-
 func (s *server) CreateTable(ctx context.Context, req *btapb.CreateTableRequest) (*btapb.Table, error) {
 	if !validTableID.MatchString(req.TableId) {
 		return nil, status.Errorf(codes.InvalidArgument, "invalid table id %q", req.TableId)
 	}
-	if !validTableParent.MatchString(req.Parent) {
-		// (A table name used as a parent would put the new table among, and on disk inside,
-		// the tables of the instance.)
-		return nil, status.Errorf(codes.InvalidArgument, "invalid parent %q, want projects/<project>/instances/<instance>", req.Parent)
+	if strings.Contains(req.Parent, "/tables/") {
+		// A table name used as a parent would put the new table among, and on disk inside,
+		// the tables of the instance.
+		return nil, status.Errorf(codes.InvalidArgument, "invalid parent %q: it names a table, not an instance", req.Parent)
 	}
 	if strings.HasSuffix(req.TableId, ".table.proto") || strings.HasSuffix(req.TableId, ".table.proto.tmp") {
 		// The disk engine keeps the definition of table "x" in the file "x.table.proto" (written as "x.table.proto.tmp").
